@@ -11,6 +11,13 @@ use std::collections::BTreeSet;
 
 pub struct C12;
 
+const HAND: [&str; 4] = [
+    "alias Flag = bool;\nalias Count = u32;\noverride strict: Flag;\n@id(3) override enabled: Flag = true;\noverride plain_flag: bool;\n@id(9) override n: Count;\noverride m: Count = 4u;\n@compute @workgroup_size(1)\nfn main() { var x = 0u; if (strict && enabled && plain_flag) { x = n + m; } }\n",
+    "override epsilon: f64;\n@id(7) override step: f64 = 0.5lf;\noverride scale: f32 = 2.0;\noverride bias: f32;\n@compute @workgroup_size(1)\nfn main() { var x = epsilon * step; var y = scale + bias; }\n",
+    "alias Real = f64;\nalias Toggle = bool;\n@id(100) override tolerance: Real;\noverride damping: Real = 0.25lf;\n@id(65535) override on: Toggle;\noverride off: Toggle = false;\n@fragment\nfn fs_main() -> @location(0) vec4<f32> { if (on || off) { return vec4<f32>(f32(tolerance * damping)); } return vec4<f32>(0.0); }\n@vertex\nfn vs_main() -> @builtin(position) vec4<f32> { return vec4<f32>(f32(tolerance)); }\n",
+    "alias I = i32;\nalias F = f32;\n@id(1) override a: I = -3;\noverride b: I;\n@id(2) override c: F;\noverride d: F = 1.5;\n@compute @workgroup_size(1)\nfn main() { var x = f32(a + b) + c + d; }\n",
+];
+
 #[derive(Debug, Clone, PartialEq, Eq, PartialOrd, Ord)]
 struct Ov {
     name: String,
@@ -183,6 +190,13 @@ impl Property for C12 {
                 }
             }
             out.push(Case::new(format!("gen{i}/{}overrides", truth.len()), wgsl, Params::default().validated(i % 3 == 0)));
+        }
+        // hand-written shapes (round 7/8 seeds): override types spelled through `alias` (naga gives the aliased scalar a NAMED,
+        // hence distinct, type handle) and double precision overrides (naga accepts them with the FLOAT64 capability)
+        for (k, src) in HAND.iter().enumerate() {
+            for v in [false, true] {
+                out.push(Case::new(format!("hand{k}/validate={v}"), src.to_string(), Params::default().validated(v)));
+            }
         }
         out
     }
